@@ -174,7 +174,7 @@ func readMap(source []byte, injectorFactory func(int) (keyValueInjector, error),
 	total := len(source)
 	if size, err := readCollectionSize(reader, version); err != nil {
 		return err
-	} else if inj, err := injectorFactory(size); err != nil {
+	} else if inj, err := injectorFactory(allocationSize(size, reader.Len(), 2, version)); err != nil {
 		return err
 	} else {
 		for i := 0; i < size; i++ {
